@@ -99,7 +99,17 @@ impl ValveMasterServer {
         let mut last_port: u16 = 0;
 
         while !exit_fetching {
-            let new_ips = self.query_specific(region, &search_filters, last_ip.as_str(), last_port)?;
+            let mut new_ips = self.query_specific(region, &search_filters, last_ip.as_str(), last_port)?;
+
+            // The terminator ends the listing wherever it shows up in a page
+            if let Some(end) = new_ips
+                .iter()
+                .position(|(ip, port)| ip.is_unspecified() && *port == 0)
+            {
+                new_ips.truncate(end);
+                ips.extend(new_ips);
+                break;
+            }
 
             match new_ips.last() {
                 None => exit_fetching = true,
